@@ -68,6 +68,8 @@ type VC struct {
 	unsupported []string
 	inlined  map[string]bool
 	usedExtern map[string]bool
+	usedTrusted map[string]bool
+	usedOther map[string]bool
 	usedAxioms map[string]bool
 	loopsNoInv int
 	specErrors []string
@@ -83,7 +85,7 @@ type VC struct {
 
 func NewVC(p *Program, mode int, fn string, seedClasses map[string]types.Type) *VC {
 	vc := &VC{P: p, mode: mode, declared: map[string]bool{}, classes: map[string]types.Type{}, assumed: map[string]bool{},
-		strlits: map[string]string{}, fn: fn, inlined: map[string]bool{}, usedExtern: map[string]bool{}, usedAxioms: map[string]bool{}}
+		strlits: map[string]string{}, fn: fn, inlined: map[string]bool{}, usedExtern: map[string]bool{}, usedTrusted: map[string]bool{}, usedOther: map[string]bool{}, usedAxioms: map[string]bool{}}
 	for k, v := range seedClasses {
 		vc.classes[k] = v
 	}
